@@ -77,6 +77,12 @@ bool OSSLDSA::sign(PrivateKey* privateKey, const ByteString& dataToSign,
 
 		OSSLDSAPrivateKey* pk = (OSSLDSAPrivateKey*) privateKey;
 		DSA* dsa = pk->getOSSLKey();
+		if (dsa == NULL)
+		{
+			ERROR_MSG("Could not get the OpenSSL private key");
+
+			return false;
+		}
 
 		// Perform the signature operation
 		unsigned int sigLen = pk->getOutputLength();
@@ -217,6 +223,12 @@ bool OSSLDSA::signFinal(ByteString& signature)
 	}
 
 	DSA* dsa = pk->getOSSLKey();
+	if (dsa == NULL)
+	{
+		ERROR_MSG("Could not get the OpenSSL private key");
+
+		return false;
+	}
 
 	// Perform the signature operation
 	unsigned int sigLen = pk->getOutputLength();
